@@ -260,7 +260,8 @@ def run_spec(draw):
 
     def node(name, depth):
         nprobe = draw(st.integers(1, 3))
-        algos = [["Probe", {"key": "c13run", "ret": draw(st.booleans()) if i < nprobe - 1 else True, "run_always": draw(st.sampled_from([None, True]))}] for i in range(nprobe)]
+        nprobe = draw(st.integers(1, 4))
+        algos = [["Probe", {"key": "c13run", "tag": i, "ret": draw(st.sampled_from([True, True, False])) if i < nprobe - 1 else True, "run_always": draw(st.sampled_from([None, None, True, False]))}] for i in range(nprobe)]
         if draw(st.booleans()):
             algos += [["SelectAll", {}], ["WeighEqually", {}], ["Rebalance", {}]]
         kids = []
@@ -286,7 +287,7 @@ def case_run(ctx, spec):
     def cb(algo, target):
         real = target.root is holder.get("root")
         entry = "seen" not in target.temp
-        log.append({"node": target.full_name, "real": real, "now": target.now, "temp_keys": sorted(target.temp.keys()), "perm": dict(target.perm), "first": entry})
+        log.append({"node": target.full_name, "real": real, "now": target.now, "temp_keys": sorted(target.temp.keys()), "perm": dict(target.perm), "first": entry, "tag": algo.tag})
         target.temp["seen"] = True
         target.perm["count"] = target.perm.get("count", 0) + (1 if entry else 0)
         return None
@@ -346,6 +347,24 @@ def case_run(ctx, spec):
                 raise Violation("parent %s was still running its stack after child %s started on %s" % (p, nm, dt_), signature="run:interleave")
         for nm in order:
             runs_per_node[nm] += 1
+    # inside a real backtest (the stacks are deep copies of the template's) every stack still short-circuits and still runs its run_always members
+    node_specs = {">".join(p_): nd for p_, nd in gen.walk_nodes(spec["tree"])}
+    for dt_, entries in by_date.items():
+        for nm in names:
+            probes = [a[1] for a in node_specs[nm]["algos"] if a[0] == "Probe"]
+            exp_tags, res = [], True
+            for pr_ in probes:
+                if res:
+                    exp_tags.append(pr_["tag"])
+                    res = bool(pr_["ret"])
+                elif pr_.get("run_always"):
+                    exp_tags.append(pr_["tag"])
+            got_tags = [e["tag"] for e in entries if e["node"] == nm]
+            if got_tags != exp_tags:
+                raise Violation(
+                    "stack of %s (probes (ret, run_always): %s) inside a backtest called probes %s on %s, expected %s" % (nm, [(q["ret"], q.get("run_always")) for q in probes], got_tags, dt_, exp_tags),
+                    signature="run:stack-in-backtest",
+                )
     # every child runs exactly once per run of its parent - user-defined securities included
     runsecs = [m.full_name for m in b.strategy.members if type(m).__name__ == "RunnableSecurity"]
     for dt_ in by_date:
